@@ -47,6 +47,10 @@ def plan(tier, seed):
     nw4 = 2 if tier == 'quick' else 6
     for i in range(nw4):
         shards.append({'name': 'w4_%d' % i, 'kind': 'w4', 'combos': w4[i::nw4], 'seed': seed * 1000 + 240 + i})
+    shards.append({'name': 'ubiq', 'kind': 'ubiq', 'n': 17000 if tier == 'quick' else 40000,
+                   'cases': [('overlap_coefficient_join', (0.5, 1.0))] if tier == 'quick' else
+                   [('overlap_coefficient_join', (0.5, 1.0)), ('jaccard_join', (0.3, 0.5)), ('overlap_join', (1, 2)),
+                    ('cosine_join', (0.5, 0.7)), ('overlap_coefficient_join', (0.3, 0.5))], 'seed': seed * 1000 + 249})
     shards.append({'name': 'ambig', 'kind': 'ambig', 'n': 40 if tier == 'quick' else 500, 'seed': seed * 1000 + 248})
     shards.append({'name': 'w5', 'kind': 'w5', 'N': 6 if tier == 'quick' else 9,
                    'n': 12 if tier == 'quick' else 150, 'seed': seed * 1000 + 247})
@@ -280,6 +284,16 @@ def run_case(case, rec, ssj=None, data=None):
         return tight_case(case, rec, ssj)
     if case['gen'] == 'w5':
         return w5_case(case, rec, ssj)
+    if case['gen'] == 'ubiq':
+        L, R = gen.ubiquitous_tables(case['n'], random.Random(case['seed']))
+        call = {'api': case['api'], 'ltable': L, 'rtable': R, 'l_key': 'id', 'r_key': 'id', 'l_attr': 's',
+                'r_attr': 's', 'tok': {'kind': 'ws', 'return_set': True}, 'allow_missing': False, 'n_jobs': 1,
+                'warm': None}
+        t_lax, t_strict = case['t']
+        nt = check_laws(ssj, rec, dict(case, t_attained=t_strict), call, t_lax, t_strict)
+        rec.count('nontrivial_pairs', nt)
+        rec.count('ubiquitous_token_cases')
+        return {'nontrivial': nt, 'call': call, 't': (t_lax, t_strict)}
     if case['gen'] == 'ambig':
         rng = random.Random(case['seed'])
         L, R, tok = gen.ambiguous_tables(rng)
@@ -394,6 +408,14 @@ def run_shard(shard, rec):
             rec.case(sig=('tight', m, t, shard['N']), nontrivial=st['nontrivial'] > 0, n=7)
             rec.add('api', st['call']['api'])
         rec.sample({'workload': 'tight tables', 'N': shard['N'], 'combos': shard['combos'][:3]}, limit=1)
+        shard = dict(shard, n=0)
+    if shard['kind'] == 'ubiq':
+        for i, (api, t) in enumerate(shard['cases']):
+            case = {'gen': 'ubiq', 'n': shard['n'], 'api': api, 't': list(t), 'seed': shard['seed'] + i}
+            st = run_case(case, rec, ssj)
+            rec.case(sig=('ubiq', api, tuple(t), shard['n']), nontrivial=st['nontrivial'] > 0, n=7)
+            rec.add('api', api)
+        rec.sample({'workload': 'one token in more than 2**14 left rows', 'rows': shard['n']}, limit=1)
         shard = dict(shard, n=0)
     if shard['kind'] == 'ambig':
         for i in range(shard['n']):
